@@ -62,6 +62,10 @@ def generate(seed, tier, index):
         intents.insert(0, ['destroy', rng.randrange(nslots), 1])     # destroy before anything was seen
     cfg = {'nslots': nslots, 'sides': [rng.choice(['client', 'server']) for _ in range(nslots)], 'synth': True,
            'suppress': rng.random() < 0.5}
+    if rng.random() < 0.12:
+        # one fault on the output side, placed where the statement still has something to say: Ctrl-C lands inside gdb.write of
+        # a "Closed" notice (stop() raises, gdb halts, the user continues); later connections at that address must still work
+        cfg['ctrl_c_in_closed_notice'] = rng.randint(0, 3)
     if tier == 'thorough' and index < 16:
         cfg['calibrate_real_gdb'] = True     # stub fidelity (only used when no foreign-thread message occurred: the C program is single-threaded)
     return {'prop': ID, 'seed': seed, 'config': cfg, 'intents': intents}
@@ -95,6 +99,9 @@ def execute(sc):
     for h in sim.hits:
         outs = [L.classify(s, p) for s, p in outs_by_seq if h['seq_before'] <= s < h.get('seq_after', 1 << 60)]
         notices = [o.notice for o in outs if o.kind == 'notice']
+        if h.get('injected_fault'):
+            events.append('F')
+            continue           # the notice of this very event was interrupted by our Ctrl-C: nothing to judge about its output
         if h['exception']:
             what = h.get('what') or ('message' if h['kind'] == 'message' else h['kind'])
             V.add('C15/exception', h['kind'] + ':' + what + ':' + c18.trigger_of(h['exception']),
